@@ -14,6 +14,7 @@ import (
 	"storj.io/drpc"
 	"storj.io/drpc/drpccache"
 	"storj.io/drpc/drpcctx"
+	"storj.io/drpc/drpcdebug"
 	"storj.io/drpc/drpcmanager"
 	"storj.io/drpc/drpcstats"
 	"storj.io/drpc/drpcstream"
@@ -152,6 +153,7 @@ func (s *Server) Serve(ctx context.Context, lis net.Listener) (err error) {
 		}
 
 		// TODO(jeff): connection limits?
+		drpcdebug.Point("server.Serve.accepted")
 		tracker.Run(func(ctx context.Context) {
 			err := s.ServeOne(ctx, conn)
 			if err != nil && s.opts.Log != nil {
